@@ -396,15 +396,15 @@ PROPS = {
     "C01": dict(chk=[1], n=(500, 4000), tiny=(12, 60)),
     "C02": dict(chk=[2], n=(500, 4000), tiny=(8, 40)),
     "C03": dict(chk=[3], n=(500, 4000), tiny=(10, 50)),
-    "C04": dict(chk=[4], n=(500, 4000), tiny=(10, 50)),
+    "C04": dict(chk=[4, 2], n=(500, 4000), tiny=(10, 50)),
     "C05": dict(chk=[5], n=(500, 4000), tiny=(8, 40)),
-    "C06": dict(chk=[6], n=(500, 4000), tiny=(12, 60)),
+    "C06": dict(chk=[6, 8], n=(500, 4000), tiny=(12, 60)),
     "C07": dict(chk=[7], n=(500, 4000), tiny=(14, 70)),
     "C08": dict(chk=[8], n=(500, 4000), tiny=(10, 50)),
     "C09": dict(chk=[5], n=(500, 4000), tiny=(12, 60), progress=True),
     "C10": dict(chk=[10], n=(500, 4000), tiny=(6, 30)),
     "C11": dict(chk=[11], n=(500, 4000), tiny=(10, 50)),
-    "C12": dict(chk=[12], n=(400, 3000), tiny=(0, 10)),
+    "C12": dict(chk=[12], n=(400, 3000), tiny=(8, 30), progress=True),
     "C13": dict(chk=[1, 2, 3, 5, 6, 8], n=(400, 3000), tiny=(0, 10)),
     "C15": dict(chk=[8], n=(300, 2000), tiny=(0, 10)),
     "C16": dict(chk=[16], n=(600, 6000), tiny=(0, 0), modes=["wrapping", "checked"]),
@@ -518,6 +518,8 @@ def parse_case_text(txt):
             cur["chunkstyle"] = w[1]
         elif w[0] == "ctor":
             cur["ctor"] = w[1]
+        elif w[0] == "gap":
+            cur["gap"] = None if w[1] == "-" else int(w[1])
         elif w[0] == "c0":
             cur["c0"] = int(w[1])
         elif w[0] == "multi":
@@ -680,6 +682,75 @@ def random_search(prop, cfg, cases, binp, props_chk, out, label="impl-random"):
             out["divergences"].append(rec)
 
 
+def impl_dfs(prop, cfg, tiny, binp, props_chk, out, limit, label="impl-dfs"):
+    """systematic exploration of the interleavings of tiny configurations ON THE CRATE, without the model: a schedule
+    prefix is replayed and the harness lets the remaining steps run in its fixed order; every position of the schedule
+    it reports is a branch point for every other thread.  Used when a proof obligation or the correspondence broke (the
+    model's schedules no longer line up with the crate's steps) and in the thorough tier.  The extracted checkers and
+    the hang flags judge every trace."""
+    runs = 0
+    for base in tiny:
+        nt = len(base["progs"])
+        frontier = [[]]
+        seen_prefix = {()}
+        seen_sched = set()
+        while frontier and runs < limit and not any(v.get("stream") == label for v in out["violations"]):
+            batch, frontier = frontier[:150], frontier[150:]
+            cases = []
+            for k, pre in enumerate(batch):
+                c = json.loads(json.dumps(base))
+                c["id"] = "%s@%d" % (base["id"], runs + k)
+                c["sched"] = pre
+                cases.append(c)
+            runs += len(cases)
+            itraces, dead = run_impl(binp, cases)
+            iblocks, _ = parse_blocks(itraces)
+            cases_path = os.path.join(BUILD, "tmp", "%s-%s-%d.cases" % (prop, label, os.getpid()))
+            os.makedirs(os.path.dirname(cases_path), exist_ok=True)
+            open(cases_path, "w").write("".join(gen_cases.fmt_case(c) for c in cases))
+            chk, flags = run_chk(cases_path, itraces, props_chk)
+            os.unlink(cases_path)
+            for c, pre in zip(cases, batch):
+                cid = c["id"]
+                il = iblocks.get(cid)
+                out["evaluations"] += 1
+                rec = dict(case=c, stream=label)
+                if cid in dead or il is None:
+                    rec.update(what="the harness process died on this case: %s" % dead.get(cid, "no output"), checker="process")
+                    out["violations"].append(rec)
+                    continue
+                sc = sched_of(il) or []
+                c["sched"] = sc
+                failed = [p for p, good in chk.get(cid, {}).items() if not good]
+                fl = flags.get(cid, [])
+                if failed:
+                    rec.update(what="checker(s) %s return false on the implementation trace" % ",".join("chk_C%02d" % int(p) for p in failed),
+                               checker="chk_C%02d" % int(failed[0]), impl_trace=il)
+                    out["violations"].append(rec)
+                    continue
+                if cfg.get("progress") and any(f.startswith("hang") or f == "incomplete" for f in fl):
+                    rec.update(what="a call did not return on the implementation (hang): %s" % "; ".join(fl), checker="progress", impl_trace=il)
+                    out["violations"].append(rec)
+                    continue
+                if prop in ("C16", "C17", "C18") and any(f.startswith("unparsed:panic") for f in fl):
+                    rec.update(what="an operation panicked with a panic that is none of the documented ones: %s" % "; ".join(fl), checker="undocumented-panic", impl_trace=il)
+                    out["violations"].append(rec)
+                    continue
+                key = tuple(sc)
+                if key in seen_sched:
+                    continue
+                seen_sched.add(key)
+                for i in range(len(pre), min(len(sc), 40)):
+                    for u in range(nt):
+                        if u != sc[i]:
+                            np_ = tuple(sc[:i] + [u])
+                            if np_ not in seen_prefix:
+                                seen_prefix.add(np_)
+                                frontier.append(list(np_))
+    out["dfs_schedules"] += runs
+    return runs
+
+
 def dfs_cases(prop, tiny, limit):
     """enumerates all interleavings of the tiny cases with the model; returns replayable cases"""
     if not tiny:
@@ -806,9 +877,18 @@ def run_check_inner(prop, tier, seed):
                 random_search(prop, cfg, rcases, binp, cfg["chk"], out)
         if special is not None and ok:
             special(prop, tier, seed, bins, out, problems)
+        if tier == "thorough" and cfg is not None and ok and bins.get("wrapping") and cfg["tiny"][1]:
+            impl_dfs(prop, cfg, gen_cases.tiny_stream(prop, seed + 57, 40, "wrapping"), bins["wrapping"], cfg["chk"], out, 20000)
         # widen the search when a proof obligation or the correspondence broke and no failing input is known yet
         if (problems or out["divergences"]) and not [v for v in out["violations"] if known_match(prop, v, known) is None] and cfg is not None and bins:
+            # first: all interleavings of tiny configurations on the crate itself
+            for mode in modes:
+                if mode in bins and not out["violations"]:
+                    tiny = gen_cases.tiny_stream(prop, seed + 31, 25 if tier == "quick" else 120, mode)
+                    impl_dfs(prop, cfg, tiny, bins[mode], cfg["chk"], out, 6000 if tier == "quick" else 40000)
             for k in range(1, 4 if tier == "quick" else 10):
+                if [v for v in out["violations"] if known_match(prop, v, known) is None]:
+                    break
                 for mode in modes:
                     if mode not in bins:
                         continue
@@ -953,7 +1033,7 @@ def do_replay(prop, path):
     c = cases[0]
     profile = "release" if c["env"]["mode"] == "wrapping" else "debug"
     binp, blog = build_harness(profile)
-    if stream in ("twin", "frozen-thread", "allocator", "zst", "multi", "chunk-style") and prop in SPECIAL:
+    if stream in ("twin", "frozen-thread", "allocator", "zst", "multi", "chunk-style", "non-fused") and prop in SPECIAL:
         ONLY[stream] = c
         problems = []
         try:
@@ -1142,7 +1222,7 @@ def special_c14(prop, tier, seed, bins, out, problems):
 SPECIAL["C14"] = special_c14
 
 
-def chunk_style_stream(prop, tier, seed, bins, out, problems):
+def chunk_style_stream(prop, tier, seed, bins, out, problems, kinds=None, chks=(8, 2)):
     """chunks consumed through the other methods of Iterator (nth, skip, last, count, fold, step_by) instead of next():
     the model does not describe these consumptions, so the traces are judged by the extracted ledger and index
     checkers only: every element of a consumed collection is handed out or destroyed exactly once"""
@@ -1154,7 +1234,7 @@ def chunk_style_stream(prop, tier, seed, bins, out, problems):
     cases = []
     for i in range(n):
         c = gen_cases.gen_conc(r, "%s-style-%d" % (prop, i), dict(next=2, chunk=6, buf=4, skip=1),
-                               kinds=[("vec", 4), ("array", 3), ("iter", 3)], owning_only=True)
+                               kinds=kinds or [("vec", 4), ("array", 3), ("iter", 3)], owning_only=(kinds is None))
         c["chunkstyle"] = r.choice(["nth", "skip", "last", "count", "fold", "stepby"])
         c["final"] = r.choice(["drop", "seq:1", "seq:100"])
         c["sched"] = None
@@ -1173,7 +1253,7 @@ def chunk_style_stream(prop, tier, seed, bins, out, problems):
     cases_path = os.path.join(BUILD, "tmp", "%s-style-%d.cases" % (prop, os.getpid()))
     os.makedirs(os.path.dirname(cases_path), exist_ok=True)
     open(cases_path, "w").write("".join(gen_cases.fmt_case(c) for c in rc))
-    chk, flags = run_chk(cases_path, itraces, [8, 2])
+    chk, flags = run_chk(cases_path, itraces, list(chks))
     os.unlink(cases_path)
     ok = 0
     for c in rc:
@@ -1206,6 +1286,81 @@ def special_c08(prop, tier, seed, bins, out, problems):
 
 
 SPECIAL["C08"] = special_c08
+
+
+def special_c02(prop, tier, seed, bins, out, problems):
+    # index fidelity of what a caller gets out of a chunk through nth / skip / last / fold / step_by, every kind
+    chunk_style_stream(prop, tier, seed, bins, out, problems,
+                       kinds=[("slice", 2), ("vec", 3), ("array", 3), ("range", 2), ("iter", 3)], chks=(2,))
+
+
+SPECIAL["C02"] = special_c02
+
+
+def nonfused_stream(prop, tier, seed, bins, out, problems, chks):
+    """a wrapped iterator that is NOT fused: one call of next() returns None although elements remain.  The model assumes a
+    fused source, so these traces are judged by the extracted checkers only: once the end has been reported it stays
+    reported (the completed flag is what makes it so), lengths stay truthful"""
+    binp = bins.get("wrapping")
+    if binp is None:
+        return
+    n = 250 if tier == "quick" else 2500
+    r = gen_cases.Rng(seed * 617 + int(prop[1:]))
+    cases = []
+    for i in range(n):
+        c = gen_cases.gen_conc(r, "%s-gap-%d" % (prop, i), gen_cases.PULLS_LEN, kinds=[("iter", 1)])
+        c["gap"] = r.below(c["env"]["len"] + 1)
+        c["env"]["hint"] = r.choice(["inexact", "none"])     # a source that ends early cannot have a truthful exact hint
+        c["sched"] = None
+        for p in c["progs"]:
+            p += [r.choice(["next:val", "chunk:2:9", "next:idval", "len", "more"]) for _ in range(1 + r.below(3))]
+        cases.append(c)
+    if "non-fused" in ONLY:
+        cases = [ONLY["non-fused"]]
+    itraces, dead = run_impl(binp, cases)
+    iblocks, _ = parse_blocks(itraces)
+    rc = []
+    for c in cases:
+        c2 = json.loads(json.dumps(c))
+        il = iblocks.get(c["id"])
+        if il is not None:
+            c2["sched"] = sched_of(il)
+        rc.append(c2)
+    cases_path = os.path.join(BUILD, "tmp", "%s-gap-%d.cases" % (prop, os.getpid()))
+    os.makedirs(os.path.dirname(cases_path), exist_ok=True)
+    open(cases_path, "w").write("".join(gen_cases.fmt_case(c) for c in rc))
+    chk, flags = run_chk(cases_path, itraces, list(chks))
+    os.unlink(cases_path)
+    ok = 0
+    for c in rc:
+        cid = c["id"]
+        il = iblocks.get(cid)
+        rec = dict(case=c, stream="non-fused")
+        if cid in dead or il is None:
+            rec.update(what="the harness process died on this case: %s" % dead.get(cid, "no output"), checker="process")
+            out["violations"].append(rec)
+            continue
+        failed = [p for p, good in chk.get(cid, {}).items() if not good]
+        if failed:
+            rec.update(what="wrapped iterator that is not fused (call %d of next() returns None): checker(s) %s return false on the implementation trace"
+                            % (c["gap"], ",".join("chk_C%02d" % int(p) for p in failed)), checker="chk_C%02d" % int(failed[0]), impl_trace=il)
+            out["violations"].append(rec)
+        elif any(f.startswith("hang") or f == "incomplete" for f in flags.get(cid, [])):
+            rec.update(what="wrapped iterator that is not fused: %s" % "; ".join(flags.get(cid, [])), impl_trace=il)
+            out["divergences"].append(rec)
+        else:
+            ok += 1
+    out["evaluations"] += len(cases)
+    out["random_schedules"] += len(cases)
+    out["traces_validated_against_impl"] += ok
+    extra_coverage.setdefault(prop, {})["non_fused_source_cases"] = ok
+
+
+def special_c05(prop, tier, seed, bins, out, problems):
+    nonfused_stream(prop, tier, seed, bins, out, problems, (5,))
+
+
+SPECIAL["C05"] = special_c05
 
 
 def special_c15(prop, tier, seed, bins, out, problems):
